@@ -39,7 +39,7 @@ VARIABLES l, grp
 vars == <<l, grp>>
 
 \* grp: the normalised token sequence and verdict of the first variant of the current layout group
-NoGrp == [id |-> -1, toks |-> <<>>, ok |-> FALSE, rl |-> <<>>, tl |-> <<>>]
+NoGrp == [id |-> -1, toks |-> <<>>, ok |-> FALSE, rl |-> <<>>, tl |-> <<>>, ast |-> <<>>]
 
 Init == l = 1 /\ grp = NoGrp
 
@@ -91,13 +91,16 @@ Normal(T) ==
 \* else is wrong with a variant: n = NoToks when the variant's tokens cannot be compared (the lexing already differs
 \* from the specification's), then only the verdicts are compared.
 NoToks == <<[k |-> "?"]>>
+CrateAst(r) == IF r.res = "ok" THEN <<r.dump.signals, NoLines(r.dump.stmts), r.dump.virtuals>> ELSE <<>>
 GroupStep(r, n, rl) ==
   IF r.group = 0 THEN UNCHANGED grp
-  ELSE IF grp.id # r.group THEN grp' = [id |-> r.group, toks |-> n, ok |-> r.res = "ok", rl |-> rl, tl |-> r.row_lines]
+  ELSE IF grp.id # r.group THEN grp' = [id |-> r.group, toks |-> n, ok |-> r.res = "ok", rl |-> rl, tl |-> r.row_lines, ast |-> CrateAst(r)]
   ELSE LET Delta(xs, ys) == [j \in DOMAIN xs |-> xs[j] - ys[j]]
        IN  /\ UNCHANGED grp
            /\ IF n # NoToks /\ grp.toks # NoToks /\ n # grp.toks THEN Flag(r, "layout.tokens")
               ELSE IF (r.res = "ok") # grp.ok THEN Flag(r, "layout.verdict")
+              \* the program the crate built (literal VALUES, operators, names, declarations; row lines apart) is the same
+              ELSE IF r.res = "ok" /\ CrateAst(r) # grp.ast THEN Flag(r, "layout.ast")
               \* `line` shifts by exactly the number of lines inserted above the row
               ELSE IF r.res = "ok" /\ r.has_truth /\ Len(rl) = Len(grp.rl) /\ Len(r.row_lines) = Len(grp.tl) /\ Len(rl) = Len(r.row_lines)
                       /\ Delta(rl, grp.rl) # Delta(r.row_lines, grp.tl) THEN Flag(r, "layout.lines")
